@@ -22,14 +22,21 @@ EPS = sys.float_info.epsilon
 
 def check(tr, hist, k, where):
     win = hist[-k:]
-    m, v = mean_stat([F(x) for x in win]), var_stat([F(x) for x in win])
+    xs = [F(x) for x in win]
+    m, v = mean_stat(xs), var_stat(xs)
     scale = max([1.0] + [abs(float(x)) for x in win])
-    for name, got, want in (('mean', tr.mean, float(m)), ('get()', tr.get(), float(m)), ('var', tr.var, float(v)),
-                            ('std', tr.std, float(v) ** 0.5)):
-        tol = 8 * EPS * scale * (scale if name == 'var' else 1) * len(win)
+    maxdev = max(abs(float(x - m)) for x in xs)
+    n = len(win)
+    tol_m = 8 * EPS * scale * n
+    # a two-pass variance is accurate relative to the squared DEVIATIONS (plus the squared rounding error of the mean)
+    tol_v = 64 * (EPS * maxdev * maxdev + (EPS * scale) ** 2 * n) + 1e-300
+    sd = float(v) ** 0.5
+    tol_s = tol_v / (2 * sd) if sd > 0 and tol_v < sd * sd else tol_v ** 0.5
+    for name, got, want, tol in (('mean', tr.mean, float(m), tol_m), ('get()', tr.get(), float(m), tol_m),
+                                 ('var', tr.var, float(v), tol_v), ('std', tr.std, sd, tol_s + 4 * EPS * sd)):
         if not (abs(float(got) - want) <= tol):
             raise Violation(f"{PID}/window-{name.strip('()')}", f"{where}: {name}={got!r} but the last {len(win)} values "
-                            f"{win} have {name}={want!r}", {})
+                            f"{win} have {name}={want!r} (tolerance {tol:.3e})", {})
 
 
 def run_task(task):
@@ -81,6 +88,8 @@ def plan(tier):
     tasks.append((4, (1, -2), 14 if deep else 11, 23))
     tasks.append((2, (0.5, 1e9, -1e-3, 7), 8 if deep else 6, 13))
     tasks.append((5, (1, 0), 12, 31))
+    tasks.append((2, (1e9, 1e9 + 0.1, 1e9 + 0.2), 6 if deep else 5, 7))      # large offset, small spread
+    tasks.append((3, (1e9, 1e9 + 0.1, -1e9), 7 if deep else 6, 7))
     return tasks
 
 
